@@ -24,10 +24,28 @@ class Piece:
 
 
 def pieces_of(data):
+    """atoms of the rope as pieces; adjacent concrete runs are merged (a CRLF may straddle two atoms) and an atom of concrete
+    length whose bytes are partly symbolic is cut into its concrete and symbolic runs"""
     out = []
+
+    def put_conc(c):
+        if not c: return
+        if out and out[-1].conc is not None: out[-1] = Piece(conc=out[-1].conc + c)
+        else: out.append(Piece(conc=c))
     for a in data.segs:
         c = a.concrete()
-        if c is not None: out.append(Piece(conc=c))
+        if c is not None: put_conc(c); continue
+        if a.conc_len:
+            run = []; sym = []
+            for b in a.bs:
+                if isinstance(b, int):
+                    if sym: out.append(Piece(atom=Atom(len(sym), tuple(sym)))); sym = []
+                    run.append(b)
+                else:
+                    if run: put_conc(bytes(run)); run = []
+                    sym.append(b)
+            if run: put_conc(bytes(run))
+            if sym: out.append(Piece(atom=Atom(len(sym), tuple(sym))))
         else: out.append(Piece(atom=a))
     return out
 
@@ -115,3 +133,18 @@ def run_process(ex, request_bytes, cons, on_terminal, fs=None, env=None, stream=
     st.world['app_mode'] = app_mode
     n = size if size is not None else request_bytes.cap
     return st, ex.run_fn('Server::process', [Opaque('Stream'), conn_info(n), Struct('App', ())], st, on_terminal=on_terminal)
+
+
+MULTIPART_DISPOSITION_PREFIXES = ('form-data; name=', 'form-data', 'form-data; name=a; filename=', 'attachment; filename=', 'x; name=', '')
+
+
+def multipart_request(cons, disp_prefix, target='/form-multipart-enctype-post-method', lens=(2, 2)):
+    """POST of one well-framed multipart/form-data part: the Content-Disposition value (a structured prefix + 2 arbitrary printable
+    bytes) and the part body (2 arbitrary bytes) are symbolic, the framing is concrete, so the per-part code of the controller is reached"""
+    # '-' is excluded from the symbolic bytes: the parser deletes hyphens from every line before comparing it with the boundary
+    # (C16's subject); without it that rewriting folds away
+    tail = SymStr.fresh('dtail', lens[0], cons, exact_len=lens[0], alphabet=[b for b in range(0x20, 0x7f) if b != 0x2d]) if lens[0] else S('')
+    val = SymStr.fresh('pbody', lens[1], cons, exact_len=lens[1], alphabet=[b for b in range(256) if b != 0x2d]) if lens[1] else S('')
+    head = 'POST %s HTTP/1.1\r\nContent-Type: multipart/form-data; boundary=QQ\r\n\r\n' % target
+    raw = SymStr.join([S(head + '--QQ\r\nContent-Disposition: ' + disp_prefix), tail, S('\r\n\r\n'), val, S('\r\n--QQ--\r\n')])
+    return raw, {'dtail': tail, 'pbody': val}
